@@ -228,6 +228,16 @@ def make_pattern(rng, family):
         order = list(range(len(P)))
         rng.shuffle(order)
         return [els[i] for i in order], P[order], info
+    if family == "chain":
+        # a planar zigzag chain LISTED IN CHAIN ORDER (a long linker): consecutive pattern atoms are spatial neighbours, so a smooth
+        # bend of the whole chain changes every consecutive step only slightly
+        n = rng.randint(8, 14)
+        step, ang = rng.uniform(1.2, 1.5), math.radians(rng.uniform(25, 40))
+        P = np.array([[i * step * math.cos(ang), (i % 2) * step * math.sin(ang), 0.0] for i in range(n)], float)
+        els = [rng.choice(pool[:4]) for _ in range(n)]
+        if rng.random() < 0.5:
+            P, els = P[::-1].copy(), els[::-1]
+        return els, P, info
     if family == "bent":
         # nearly, but not exactly, collinear: one atom 0.06-0.4 A off the line through the others (the orientation about the long
         # axis is defined, but only just)
@@ -249,6 +259,10 @@ def make_pattern(rng, family):
         twin, x, y = rng.sample(["H", "F", "Cl", "Br", "N", "O"], 3)
         P = [[0, 0, 0], list(dirs[0] * lens[0]), list(dirs[1] * lens[0]), list(dirs[2] * lens[1]), list(dirs[3] * lens[2])]
         els = ["C", twin, twin, x, y]
+        if rng.random() < 0.4:
+            # twins by GEOMETRY only: same bond length, different elements - the mirror image of the point set is the point set,
+            # but no numbering of the mirror image respects the elements
+            els[2] = rng.choice([e for e in ["H", "F", "Cl", "Br", "N", "O"] if e not in (twin, x, y)])
         P = np.array(P, float)
         # the twins often come first (the starting atom of a search is the first pattern atom)
         order = [1, 2, 0, 3, 4] if rng.random() < 0.5 else rng.sample(range(5), 5)
@@ -256,7 +270,7 @@ def make_pattern(rng, family):
     raise ValueError(family)
 
 
-PATTERN_FAMILIES = ["cs", "bent", "single", "pair", "collinear", "planar", "planar", "asymmetric", "asymmetric", "c2", "c3", "c6", "td", "chiral", "chiral", "bigring", "bigring"]
+PATTERN_FAMILIES = ["cs", "bent", "chain", "single", "pair", "collinear", "planar", "planar", "asymmetric", "asymmetric", "c2", "c3", "c6", "td", "chiral", "chiral", "bigring", "bigring"]
 
 
 def effective_hints(P, hints):
@@ -340,7 +354,7 @@ CELL_FAMILIES = ["cubic", "ortho", "ortho", "tri_pos", "tri_neg", "tri_mixed", "
 
 def make_cell(rng, family, min_width, tight_axes, tight=1.02, roomy=(1.6, 3.0), allow_rotated=True):
     """Cell whose perpendicular widths are >= min_width*tight on `tight_axes` and roomier elsewhere."""
-    if family == "tri_rotated" and not allow_rotated:
+    if family in ("tri_rotated", "tri_upper", "tri_left") and not allow_rotated:
         family = "tri_mixed"
     target = [min_width * (tight * rng.uniform(1.0, 1.08) if i in tight_axes else rng.uniform(*roomy)) for i in range(3)]
     if family == "cubic":
@@ -383,6 +397,14 @@ def make_cell(rng, family, min_width, tight_axes, tight=1.02, roomy=(1.6, 3.0), 
         cell = cell * (s * 1.0001)
     if family == "tri_rotated":
         cell = cell @ random_rotation(rng).T
+    if family == "tri_upper":
+        # the same lattice shape listed upper-triangular (vectors and coordinates both in reverse order: an isometry)
+        cell = cell[::-1, ::-1].copy()
+    if family == "tri_left":
+        # two cell vectors listed in the other order: a left-handed triple (negative determinant), same lattice
+        i, j = rng.sample(range(3), 2)
+        cell = cell.copy()
+        cell[[i, j]] = cell[[j, i]]
     return cell
 
 
